@@ -80,6 +80,36 @@ def run_registry(acc, srv, key, n_ops):
             t = rng.choice(rw.tokens)
             a0, a1 = rng.choice([("n", t), ("t", t)]), rng.choice([a for a in A if a[1] != t])
             shape = "typed_identity"
+        elif r < 0.66:
+            # the same cw20 spelled in another letter case (addresses are case-insensitive): still the same asset
+            t = rng.choice(rw.tokens)
+            a0 = ("t", t)
+            a1 = ("t", t.upper()) if rng.random() < 0.7 else rng.choice([a for a in A if a[1] != t])
+            if a1[0] == "t" and a1[1] != t.upper() and rng.random() < 0.5:
+                a0 = ("t", t.upper())
+            shape = "case_variant"
+        elif r < 0.72 and rw.model:
+            # re-registration of a native denom between creations (records must stay consistent with the pairs)
+            regd = sorted(rw.reg)
+            dn = rng.choice(regd)
+            newdec = rng.choice([0, 6, 9, 18, rw.reg[dn]])
+            rr = rw.x("owner", rw.factory, {"add_native_token_decimals": {"denom": dn, "decimals": newdec}})
+            acc.ev()
+            acc.cls("reregister", rr["r"])
+            if rr["r"] == "ok":
+                rw.reg[dn] = newdec
+                acc.count("reregistrations")
+                probs = []
+                for k2 in rng.sample(rw.order, min(len(rw.order), 8)):
+                    rec = rw.model[k2]
+                    rec["decimals"] = [rw.decimals_of(a) for a in rec["assets"]]
+                    probs += check_record(rw, acc, k2, rec, {})
+                for rec in rw.model.values():
+                    rec["decimals"] = [rw.decimals_of(a) for a in rec["assets"]]
+                if probs:
+                    acc.violation("after re-registering %s with %d decimals: %s" % (dn, newdec, "; ".join(probs[:3])),
+                                  {"kind": "registry", "world_key": list(key), "step": step, "denom": dn})
+            continue
         else:
             a0, a1 = rng.sample(A, 2)
             shape = "random"
@@ -89,10 +119,11 @@ def run_registry(acc, srv, key, n_ops):
         wl = rng.choice([[], ["owner"], ["lp1", "lp2"]])
         mins = (rng.choice([0, 1, 10 ** 6]), rng.choice([0, 5, 10 ** 12]))
         resp, rec = rw.create(a0, a1, rate, wl, mins)
-        key_ = frozenset([a0, a1])
+        norm = lambda a: (a[0], a[1].lower()) if a[0] == "t" else a
+        key_ = frozenset([norm(a0), norm(a1)])
         acc.ev()
         expect_fail = None
-        if a0 == a1:
+        if norm(a0) == norm(a1):
             expect_fail = "identical assets"
         elif key_ in rw.model:
             expect_fail = "duplicate set"
@@ -130,7 +161,7 @@ def run_registry(acc, srv, key, n_ops):
                 else:
                     acc.count("wellformed_creation_rejected_other")
             # a never-created set must not resolve
-            if key_ not in rw.model and a0 != a1:
+            if key_ not in rw.model and norm(a0) != norm(a1):
                 lk = rw.lookup(a0, a1)
                 if lk["r"] == "ok":
                     acc.violation("lookup of never-created set %s/%s resolves to %s" % (a0[1], a1[1], lk["v"].get("contract_addr")), case)
@@ -182,7 +213,7 @@ def floors(acc, tier):
     _w.need(acc, msgs, "creations_ok", 1200)
     _w.need(acc, msgs, "creations_rejected", 800)
     _w.need(acc, msgs, "absent_lookups", 1000)
-    for shape in ("family_split", "repeat", "identical", "bogus_token", "typed_identity", "random"):
+    for shape in ("family_split", "repeat", "identical", "bogus_token", "typed_identity", "case_variant", "random"):
         if not any(k.startswith(shape + "|") for k in acc.classes):
             msgs.append("shape %s never generated" % shape)
     if not any(k.startswith("family_split|") and "|ok|" in k for k in acc.classes):
